@@ -438,6 +438,52 @@ def wide_struct_programs(tier):
     return out
 
 
+def float_pow_cases(tier):
+    """x ** p on floats: the real value where one exists for a non-negative base, an error where none does"""
+    import math
+    from ..table import ERR, UNSPEC
+    from ..core import xfloat
+    vals = [0.0, -0.0, 0.5, 1.0, 2.0, -2.0, -0.5, 1.5, 3.0, -1.0, -3.0, 0.25, 1e308, 1e-308, 5e-324, 7.0, -7.0]
+    out = []
+    for a in vals:
+        for b in vals:
+            if a > 0:
+                try:
+                    r = a ** b
+                    exp = r if math.isfinite(r) else ERR
+                except OverflowError:
+                    exp = ERR
+            elif a == 0:
+                exp = (a ** b) if b > 0 else ERR
+            elif b == int(b) and b >= 1:
+                try:
+                    exp = a ** b
+                    if not math.isfinite(exp):
+                        exp = ERR
+                except OverflowError:
+                    exp = ERR
+            elif b != int(b):
+                exp = ERR       # no real value
+            else:
+                exp = UNSPEC    # negative base, integral exponent <= 0: a real value exists, the library refuses the whole quadrant
+            for form in ('(%s) ** (%s)', 'pow(%s, %s)'):
+                out.append({'sig': 'C02|float-pow|%s|%r|%r' % (form[:3], a, b), 'src': form % (xfloat(a), xfloat(b)), 'exp': exp})
+    for a in (0, 2, -2, 3):
+        for b in (0.5, 2.0, -1.0, 0.0):
+            if a > 0:
+                exp = float(a) ** b
+            elif a == 0:
+                exp = 0.0 if b > 0 else ERR
+            elif b == int(b) and b >= 1:
+                exp = float(a) ** b
+            elif b != int(b):
+                exp = ERR
+            else:
+                exp = UNSPEC
+            out.append({'sig': 'C02|float-pow|int-base|%r|%r' % (a, b), 'src': 'pow(%d, %s)' % (a, xfloat(b)), 'exp': exp})
+    return out
+
+
 def run(tier):
     rep = Report(PROP, tier, 'model_checking',
                  'reference evaluator written from the book, in lock-step with the implementation: (1) all operator strings of <=2 binary '
@@ -474,6 +520,9 @@ def run(tier):
             if cls in ('crash', 'rejected') or why:
                 rep.fail(Failure(PROP, '%s|%s' % (it[4], why or cls), {'src': it[0]}, repr(it[1]), actual,
                                  mk_unit_job([it[3]], [('c0', 'let c0 = ()->{ %s };' % it[0])], None, None, {'max_items': 64})))
+    fp = float_pow_cases(tier)
+    rep.bounds['float_pow_cases'] = len(fp)
+    run_table(rep, fp, {'prelude': [PRELUDE]}, chunk=200)
     # 6. wide programs
     wc = wide_cases(tier)
     rep.bounds['wide_programs'] = len(wc) + len(wide_struct_programs(tier))
